@@ -188,7 +188,22 @@ fn real_eps() -> Vec<Ep> {
         ep!("client::push::get_pushrule_enabled", 1, c::push::get_pushrule_enabled::v3,
             |v| c::push::get_pushrule_enabled::v3::Request::new(c::push::RuleKind::Override, v[0].clone()),
             |_v| Some(c::push::get_pushrule_enabled::v3::Response::new(true))),
+        ep!("client::search::search_events", 2, c::search::search_events::v3,
+            |v| { let mut cat = c::search::search_events::v3::Categories::new(); cat.room_events = Some(c::search::search_events::v3::Criteria::new(v[0].clone())); let mut r = c::search::search_events::v3::Request::new(cat); r.next_batch = Some(v[1].clone()); r },
+            |v| { let mut rc = c::search::search_events::v3::ResultCategories::new(); let mut sr = c::search::search_events::v3::SearchResult::new(); sr.result = Some(raw(&v[0])); rc.room_events.results.push(sr); rc.room_events.next_batch = Some(v[1].clone()); Some(c::search::search_events::v3::Response::new(rc)) }),
+        ep!("client::directory::get_public_rooms_filtered", 1, c::directory::get_public_rooms_filtered::v3,
+            |v| { let mut r = c::directory::get_public_rooms_filtered::v3::Request::new(); r.since = Some(v[0].clone()); r },
+            |v| { let mut r = c::directory::get_public_rooms_filtered::v3::Response::new(); r.next_batch = Some(v[0].clone()); Some(r) }),
+        ep!("client::directory::get_public_rooms", 1, c::directory::get_public_rooms::v3,
+            |v| { let mut r = c::directory::get_public_rooms::v3::Request::new(); r.since = Some(v[0].clone()); r },
+            |v| { let mut r = c::directory::get_public_rooms::v3::Response::new(vec![]); r.next_batch = Some(v[0].clone()); Some(r) }),
         // ---- federation -----------------------------------------------------------------------
+        ep!("federation::directory::get_public_rooms", 1, f::directory::get_public_rooms::v1,
+            |v| { let mut r = f::directory::get_public_rooms::v1::Request::new(); r.since = Some(v[0].clone()); r },
+            |v| { let mut r = f::directory::get_public_rooms::v1::Response::new(); r.next_batch = Some(v[0].clone()); Some(r) }),
+        ep!("federation::directory::get_public_rooms_filtered", 1, f::directory::get_public_rooms_filtered::v1,
+            |v| { let mut r = f::directory::get_public_rooms_filtered::v1::Request::new(); r.since = Some(v[0].clone()); r },
+            |v| { let mut r = f::directory::get_public_rooms_filtered::v1::Response::new(); r.next_batch = Some(v[0].clone()); Some(r) }),
         ep!("federation::query::get_profile_information", 2, f::query::get_profile_information::v1,
             |v| f::query::get_profile_information::v1::Request::new(uid(&v[0])?),
             |v| { let mut r = f::query::get_profile_information::v1::Response::new(); r.displayname = Some(v[1].clone()); Some(r) }),
